@@ -181,6 +181,9 @@ def c08_reencode(r, regions, ops, variant, at_index):
             if (p is None) != (q is None) or (p is not None and abs(p - q) > 1e-3):
                 out.append("final physical position base %r, %s-encoded %r" % (pb.xyz(), variant, pv.xyz()))
                 break
+    if not out and abs(pb.fil - pv.fil) > 1e-2:
+        # the extruder is part of where the printer physically ends up
+        out.append("filament pushed: base %r mm, %s-encoded %r mm" % (pb.fil, variant, pv.fil))
     return out
 
 
